@@ -42,8 +42,10 @@ impl Sim<'_> {
     }
     fn accept(&self, stack: &Stack, pos: usize) -> bool { matches!(self.st.action(*stack.last().unwrap(), self.tok(pos)), Action::Accept) }
     /// how far plain parsing gets from (stack, pos)
-    fn reach(&self, mut stack: Stack, mut pos: usize) -> usize {
-        while pos < self.toks.len() { if !self.feed(&mut stack, self.toks[pos]) { break; } pos += 1; }
+    /// (candidates are compared over the same window: plain parsing is not taken beyond `limit`, which is
+    /// TRY_PARSE_AT_MOST lexemes after the error)
+    fn reach(&self, mut stack: Stack, mut pos: usize, limit: usize) -> usize {
+        while pos < self.toks.len() && pos < limit { if !self.feed(&mut stack, self.toks[pos]) { break; } pos += 1; }
         if pos == self.toks.len() { let mut s = stack.clone(); let _ = self.feed(&mut s, self.grm.eof_token_idx()); }
         pos
     }
@@ -152,10 +154,11 @@ fn once(gsrc: String, input: String) -> Result<String, String> {
     // recoverer is handed the stack as it is at that point)
     let want = match oracle(&sim, &stack, pos, 4) { Some(s) => s, None => return Ok("search space too big".into()) };
     // rank by reach, strip trailing shifts, dedup
-    let best = want.iter().map(|(_, s, p)| sim.reach(s.clone(), *p)).max().unwrap();
+    let limit = pos + 250;
+    let best = want.iter().map(|(_, s, p)| sim.reach(s.clone(), *p, limit)).max().unwrap();
     let mut exp: BTreeSet<Vec<R>> = BTreeSet::new();
     for (seq, s, p) in &want {
-        if sim.reach(s.clone(), *p) != best { continue; }
+        if sim.reach(s.clone(), *p, limit) != best { continue; }
         let mut q = seq.clone();
         while matches!(q.last(), Some(R::Shift(_))) { q.pop(); }
         exp.insert(q);
@@ -202,6 +205,7 @@ fn once(gsrc: String, input: String) -> Result<String, String> {
 }
 
 pub fn run(g: &str, input: &str) -> Outcome {
+    crate::note_case("c06_repairs", json!({"grammar": g, "input": input}));
     let (tx, rx) = mpsc::channel();
     let (g2, i2) = (g.to_string(), input.to_string());
     std::thread::spawn(move || { let _ = tx.send(once(g2, i2)); });
@@ -226,6 +230,18 @@ const GRMS: &[&str] = &[
 ];
 
 pub fn search(_tag: &str, tier: &str) -> Option<Value> {
+    // inputs longer than the ranking window (TRY_PARSE_AT_MOST = 250 lexemes after the error): two repairs of the same
+    // cost that consume different amounts of input and both let the rest parse must both be reported
+    for (g, head, unit, reps) in [
+        ("%start E\n%%\nE: 'a' | E 'b' 'a' | 'c' E 'c';", "b a ", "b a ", 200usize),
+        ("%start E\n%%\nE: 'a' | E 'b' 'a' | 'c' E 'c';", "b a ", "b a ", 124),
+        ("%start S\n%%\nS: 'a' L 'c';\nL: L 'b' | ;", "b ", "b ", 300),
+        ("%start S\n%%\nS: L 'c' 'c';\nL: L 'a' 'b' | ;", "b ", "a b ", 180),
+    ] {
+        let input = format!("{}{}", head, unit.repeat(reps));
+        let o = run(g, &input);
+        if o.fails { return Some(witness("c06_repairs", json!({"grammar": g, "input": input}), &o)); }
+    }
     let n = if tier == "thorough" { 4000 } else { 400 };
     let mut r = Rng(0x9E3779B97F4A7C15);
     for k in 0..n {
